@@ -35,6 +35,7 @@ type SpecEnv struct {
 	frame   *Frame // for local-variable lookup in loop invariants
 	fc      *FuncContract
 	inPure  bool
+	inOld   bool
 	iterKey string
 }
 
@@ -178,6 +179,7 @@ func (r *Run) eval(env *SpecEnv, e Expr) SV {
 		}
 		n := *env
 		n.cur = env.old
+		n.inOld = true
 		return r.eval(&n, x.X)
 	case ELet:
 		v := r.eval(env, x.Val)
@@ -250,6 +252,12 @@ func (r *Run) unifyNil(a, b SV) (SV, SV) {
 func (r *Run) evalIdent(env *SpecEnv, name string) SV {
 	if sv, ok := env.bound[name]; ok {
 		return sv
+	}
+	// inside old(): a parameter name denotes its value at function entry
+	if env.inOld {
+		if sv, ok := env.vars[name]; ok {
+			return sv
+		}
 	}
 	// loop invariants: current value of a local variable takes precedence over the parameter's entry value
 	if env.frame != nil {
@@ -677,6 +685,22 @@ func (r *Run) evalCall(env *SpecEnv, x ECall) SV {
 			}
 		}
 		return SV{t: store(a.t, i.t, v.t), T: a.T}
+	case "chanlen", "chanrecvd", "chansent", "chanat":
+		// ghost FIFO view of a channel (see chan.go)
+		ch := r.eval(env, x.Args[0])
+		et := chanElem(ch.T)
+		bk, hk, tk := r.eng.chanKeys(et)
+		head, tail := sel(r.heapGet(env.cur, hk), ch.t), sel(r.heapGet(env.cur, tk), ch.t)
+		switch id.Name {
+		case "chanlen":
+			return SV{t: app("Int", "-", tail, head), T: types.Typ[types.Int]}
+		case "chanrecvd":
+			return SV{t: head, T: types.Typ[types.Int]}
+		case "chansent":
+			return SV{t: tail, T: types.Typ[types.Int]}
+		}
+		i := r.eval(env, x.Args[1])
+		return SV{t: sel(sel(r.heapGet(env.cur, bk), ch.t), i.t), T: et}
 	case "sprintf":
 		// sprintf(format, args...): the same uninterpreted function the executor uses for fmt.Sprintf
 		f := r.eval(env, x.Args[0])
@@ -1108,6 +1132,13 @@ func (r *Run) havocModifies(env *SpecEnv, pre, st *State, m Expr, src string) {
 				T := r.specTypeArg(penv, x.Args[0])
 				key := r.eng.heapKeyArr(T)
 				st.heaps[key] = r.havoc(r.eng.heapDecls[key].name, r.eng.heapDecls[key].sort)
+				return
+			case "chanof": // chanof(ch): the ghost FIFO state of channels of ch's element type
+				v := r.eval(penv, x.Args[0])
+				bk, hk, tk := r.eng.chanKeys(chanElem(v.T))
+				for _, key := range []string{bk, hk, tk} {
+					st.heaps[key] = r.havoc(r.eng.heapDecls[key].name, r.eng.heapDecls[key].sort)
+				}
 				return
 			}
 		}
